@@ -368,8 +368,33 @@ pub fn build_fac<C: CfgLike>(x: &Sx) -> BF<C> {
     }
 }
 
+fn holds_service(f: &Sx) -> bool {
+    let t = format!("{f:?}");
+    t.contains("\"FG\"") || t.contains("\"L\"")
+}
+
 fn run_fac<C: CfgLike>(f: &Sx, cfg: &str, ops: &[&str]) -> String {
     let fac = build_fac::<C>(f);
+    // For half of the cases the factory has been used before: one `new_service` with the same config, driven to its end, its
+    // result and log discarded.  A factory builds everything anew for every `new_service` (the leaf factories are stateless
+    // scripts), so what follows is the same as for a fresh factory.
+    // (not where the factory itself holds a scripted leaf SERVICE — `apply_cfg(service, ..)` — whose readiness script would be
+    // consumed by the first use)
+    if !holds_service(f) && (cfg.len() + ops.len() + ops.iter().map(|o| o.len()).sum::<usize>()) % 2 == 0 {
+        let warm_cfg = C::parse(cfg);
+        if let Ok(mut fut) = catch_unwind(AssertUnwindSafe(|| fac.new_service(warm_cfg))) {
+            for k in 0..FUEL {
+                let wk = mk_waker(10_000 + k);
+                let mut cx = Context::from_waker(&wk);
+                match catch_unwind(AssertUnwindSafe(|| fut.as_mut().poll(&mut cx))) {
+                    Ok(Poll::Pending) => {}
+                    _ => break,
+                }
+            }
+            std::mem::forget(fut);
+        }
+        let _ = take_log();
+    }
     let cfg = C::parse(cfg);
     let mut out = Vec::new();
     let mut w = 0usize;
